@@ -4,6 +4,8 @@ C definitions (the glue takes untyped nb::ndarray<> and raw-casts .data())."""
 from __future__ import annotations
 
 import ast
+
+import sympy as sp
 import re
 
 from engine import cast, core, pyabs, xabi
@@ -22,6 +24,34 @@ SCALAR_PY = {"pyfloat", "pyint", "pybool", "pyint?", "str"}
 
 def _norm_type(t: str) -> str:
     return re.sub(r"\s+", " ", t.replace("const ", "").replace(" const", "")).strip()
+
+
+
+def _multi_dim(an, g, p) -> bool:
+    """Does the kernel address this array with more than one index (so that its memory order matters)?  Yes when the
+    glue casts it to a pointer to arrays, or when some access of the forwarded kernel parameter has a subscript that is
+    not a single loop variable / constant (a stride appears)."""
+    if any("(*)" in (c[1] or "") or "[" in (c[1] or "") for c in p.casts):
+        return True
+    locals_ = {c[0] for c in p.casts}
+    for callee, texts, _nodes in g.calls:
+        summ = an.summary(callee)
+        if summ is None:
+            continue
+        kparams = list(getattr(summ, "params", None) or [])  # parameter names in declaration order
+        for pos, t in enumerate(texts):
+            if t.strip() in locals_ | {p.name}:
+                for acc in list(getattr(summ, "reads", [])) + list(getattr(summ, "writes", [])):
+                    kp = kparams[pos] if kparams and pos < len(kparams) else None
+                    if kp is not None and acc.base != kp:
+                        continue
+                    try:
+                        e = sp.expand(sp.sympify(acc.index))
+                    except Exception:
+                        continue
+                    if any(t_.is_Mul and len([f_ for f_ in t_.args if f_.free_symbols]) >= 2 for t_ in sp.Add.make_args(e)):
+                        return True
+    return False
 
 
 def run(rep: core.Report, an, tus):
@@ -153,6 +183,10 @@ def run(rep: core.Report, an, tus):
             if p.kind == "ndarray":
                 bad += [x for x in srcs if x.dtype in SCALAR_PY]
             nonc = [x for x in srcs if p.kind == "ndarray" and x.contig is False]
+            if p.kind == "ndarray" and not nonc:
+                kept = [x for x in srcs if x.contig is None and "keeps the caller's memory order" in x.why]
+                if kept and _multi_dim(an, g, p):
+                    nonc = kept
             unknown = [x for x in srcs if x.dtype == "?" or x.dtype.startswith("?")]
             for u in unknown[:1]:
                 rep.unknown(f"{s.file}::{s.qualname} phonoc.{s.entry} {p.name} <- {core.norm(core.src(a), 40)}: {u.why[:90]}")
